@@ -23,14 +23,19 @@ for (pid, mk), det in sorted(detected.items()):
     src = os.path.join(root, pid, mk)
     dst = f'/verif/seeded/{pid}-r{rnd}{mk}'
     os.makedirs(dst, exist_ok=True)
-    for f in ['patch.diff', 'demo.rs', 'demo.md']:
+    for f in ['patch.diff', 'demo.rs', 'demo.md', 'Cargo.toml', 'features.txt']:
         if os.path.exists(os.path.join(src, f)): shutil.copy(os.path.join(src, f), os.path.join(dst, f))
     if os.path.exists(os.path.join(src, 'patch.rebased.diff')):
         shutil.copy(os.path.join(src, 'patch.rebased.diff'), os.path.join(dst, 'patch.rebased.diff'))
     meta = json.load(open(os.path.join(src, 'meta.json')))
     meta['round'] = rnd
     meta['author_ran'] = meta.pop('ran', meta.get('author_ran'))
-    meta['written_against_repo_commit'] = 'd418550' if rnd == 2 else ('2a472e8' if pid <= 'C06' else ('a1a1e41' if pid <= 'C12' else '8551cf1'))
+    if rnd == 2:
+        meta['written_against_repo_commit'] = 'd418550'
+    elif rnd == 3:
+        meta['written_against_repo_commit'] = '2a472e8' if pid <= 'C06' else ('a1a1e41' if pid <= 'C12' else '8551cf1')
+    else:
+        meta['written_against_repo_commit'] = '30ceb26' if pid <= 'C09' else 'cadacea'
     meta['checks_run_against_repo_commit'] = head
     meta['confirmed_by_me'] = {
         'how': 'tools/confirm_mutant.sh in a scratch worktree of /repo (outside /repo and /verif): git apply; cargo build --workspace; cargo test --workspace --no-fail-fast --offline; demo as ts-rs/tests/seeded_demo.rs with the change and without it (with the cargo features the demo names)',
